@@ -169,7 +169,7 @@ func checkC11(w *World, r *Report) {
 				return
 			}
 			g := c.Common().StaticCallee()
-			if g == nil || isPart[g] || g.Pkg == nil || g.Pkg.Pkg.Path() != twigPath || g.Object() == nil || g.Object().Exported() || len(g.Blocks) == 0 {
+			if g == nil || isPart[g] || !isTwigFn(g) || g.Object() == nil || g.Object().Exported() || len(g.Blocks) == 0 {
 				return
 			}
 			if _, isCall := in.(*ssa.Call); !isCall {
@@ -529,7 +529,7 @@ func freshMapFor(v ssa.Value, depth int, target *ssa.FieldAddr) (string, bool) {
 		// a helper of the package whose every result is fresh, or is one of its parameters and
 		// the argument passed for it is fresh / the field's own map
 		f := x.Call.StaticCallee()
-		if f == nil || f.Pkg == nil || f.Pkg.Pkg.Path() != twigPath || len(f.Blocks) == 0 || x.Call.IsInvoke() {
+		if f == nil || !isTwigFn(f) || len(f.Blocks) == 0 || x.Call.IsInvoke() {
 			break
 		}
 		why, ok := "", true
@@ -620,7 +620,7 @@ func isLoadErrorIn(v ssa.Value, loadFn *types.Func, helperSeen map[*ssa.Function
 				return true
 			}
 			// a loading helper of the package: every error it returns is a Load error (or nil)
-			if g := c.Call.StaticCallee(); g != nil && g.Pkg != nil && g.Pkg.Pkg.Path() == twigPath && len(g.Blocks) > 0 && !helperSeen[g] {
+			if g := c.Call.StaticCallee(); g != nil && isTwigFn(g) && len(g.Blocks) > 0 && !helperSeen[g] {
 				helperSeen[g] = true
 				defer delete(helperSeen, g)
 				all, n := true, 0
